@@ -34,6 +34,10 @@ def _linalg_args(lem, rng):
         return {'u': u, 'off': off, 'M': M, 'm': m, 'c': c, 'row': row}
     if name == 'ordg_is_dot':
         return {'crow': gens.bits(rng, m + 1), 'gs': gens.bits(rng, m + 1, cols), 'n': m, 'c': c}
+    if name == 'expand_sums':
+        N = int(rng.integers(0, 5)); K = int(rng.integers(0, N + 1))
+        mk = gens.bits(rng, N)
+        return {'g': gens.bits(rng, 2 * int(mk.sum()) + 2), 'x': gens.bits(rng, 2 * N + 2), 'mask': mk, 'N': N, 'K': K}
     if name == 'acq_unit':
         n = int(rng.integers(0, 4)); mm = 2 * n + int(rng.integers(0, 3))
         return {'g': rng.integers(-1, 3, size=2 * n + 3), 'i': int(rng.integers(0, 2 * n + 2)), 'm': mm, 'n': n}
